@@ -88,6 +88,52 @@ static inline size_t cm_next(const uint8_t *d, size_t n, size_t o)
 /* capture-module builder: size of the intermediate buffer (header, five length fields, the strings, vendor data, up to 8 padding bytes) */
 #define CMB_MAXSIZE (26 + 10 + deviceDescription.n + serialNumber.n + hardwareVersion.n + softwareVersion.n + vendorData->n + 8)
 
+/* a payload / packet object with its own buffer (value semantics C14, status C16, TECMP C15) */
+#define VAL_PAYLOAD(p)   (__CPROVER_is_fresh((p), sizeof(*(p))) && (p)->payloadData.n <= VEC_MAX && CEX_LIMIT((p)->payloadData.n) && __CPROVER_is_fresh((p)->payloadData.d, CEX_CAP((p)->payloadData.n)))
+#define VAL_PACKET(p)    (__CPROVER_is_fresh((p), sizeof(*(p))) && ((p)->payload == 0 || VAL_PAYLOAD((p)->payload)))
+
+/* ---- TECMP (C15).  Frame f: 28-byte header, payload p = f + 28, m = size - 28 payload bytes available ---- */
+#define T_DEV(f)   B(f, 1)
+#define T_MT(f)    B(f, 5)
+#define T_DT(f)    BE16(f, 6)
+#define T_IFID(f)  BE32(f, 12)
+#define T_TS(f)    BE64(f, 16)
+#define T_PLEN(f)  BE16(f, 24)
+/* TECMP payload kinds (TECMP::PayloadType) */
+#define TK_CM  0x0100u
+#define TK_IF  0x0200u
+#define TK_CAN 0x0302u
+#define TK_LIN 0x0304u
+/* the inner lengths of a payload of kind t lie inside its n bytes d: CAN 4 id + 1 dlc + dlc data; LIN 1 pid + 1 length + length data;
+ * bus-status entry as the decoder builds it: 12 generic + 12 entry + 4 default bytes; capture-module status: generic part and the version bytes 13..17 */
+#define TP_FITS(t, d, n) (((t) == TK_CAN && (n) >= 5 && (size_t)B(d, 4) <= (n) - 5) || ((t) == TK_LIN && (n) >= 2 && (size_t)B(d, 1) <= (n) - 2) || \
+                          ((t) == TK_IF && (n) == 28) || ((t) == TK_CM && (n) >= 18))
+/* a TECMP payload object as the decoder hands it to the converter */
+#define TP_WELL(p) (VAL_PAYLOAD(p) && TP_FITS((p)->type.type, (p)->payloadData.d, (p)->payloadData.n))
+/* converter input: the 28-byte TECMP header and a payload object handed over by the decoder */
+#define CONV_IN(header, payload) (__CPROVER_is_fresh(header, 28) && __CPROVER_is_fresh(payload, sizeof(*payload)) && TP_WELL(*payload))
+#define TD(payload) ((*(payload))->payloadData.d)          /* TECMP payload bytes */
+#define TN(payload) ((*(payload))->payloadData.n)
+/* converter output r: a new packet with a new payload object; device id, timestamp and interface id are the header's wire fields */
+#define CONV_OUT(r)       (__CPROVER_is_fresh(r, sizeof(struct ASAM_CMP_Packet)) && __CPROVER_is_fresh((r)->payload, sizeof(struct ASAM_CMP_Payload)) && __CPROVER_is_fresh((r)->payload->payloadData.d, (r)->payload->payloadData.n))
+#define CONV_HDR(r, h)    ((r)->deviceId == T_DEV(h) && (r)->timestamp == T_TS(h))
+#define PD(r) ((r)->payload->payloadData.d)                /* ASAM payload bytes of the converted packet */
+#define PN(r) ((r)->payload->payloadData.n)
+/* the payload kind the decoder builds for a frame of message type mt / data type dt */
+#define KIND_MATCH(t, mt, dt) (((mt) == 1 && (t) == TK_CM) || ((mt) == 2 && (t) == TK_IF) || ((mt) == 3 && ((dt) == 2 || (dt) == 3) && (t) == TK_CAN) || ((mt) == 3 && (dt) == 4 && (t) == TK_LIN))
+#define T_SUPPORTED(mt, dt)   ((mt) == 1 || (mt) == 2 || ((mt) == 3 && ((dt) == 2 || (dt) == 3 || (dt) == 4)))
+/* number of packets a TECMP frame f of `size` bytes yields: none unless the header is complete, declares a non-empty payload that fits and is one the
+ * library treats as valid (message type != 0xFF; data-type bytes not FF 00); then by kind, with m = size - 28 payload bytes at p = f + 28 */
+#define T_FRAME_OK(f, size) ((size) >= 28 && T_PLEN(f) != 0 && (size) >= 28 + (size_t)T_PLEN(f) && T_MT(f) != 0xFF && !(B(f, 6) == 0xFF && B(f, 7) == 0x00))
+#define T_KIND_COUNT(mt, dt, p, m) ((mt) == 1 ? (TP_FITS(TK_CM, p, m) ? 1 : 0) : (mt) == 2 ? ((m) >= 24 ? ((m) - 12) / 12 : 0) : \
+                                    ((mt) == 3 && ((dt) == 2 || (dt) == 3)) ? (TP_FITS(TK_CAN, p, m) ? 1 : 0) : ((mt) == 3 && (dt) == 4) ? (TP_FITS(TK_LIN, p, m) ? 1 : 0) : 0)
+#define T_COUNT(f, size) (T_FRAME_OK(f, size) ? T_KIND_COUNT(T_MT(f), T_DT(f), (const uint8_t *)(f) + 28, (size) - 28) : 0)
+/* element condition of std::vector<std::shared_ptr<TECMP::Payload>>: well formed, and of the kind of the frame being decoded (ghost g_mt / g_dt) */
+/* (the push-side condition is stated with r_ok: the pushed object was allocated by a callee whose contract already introduced it as fresh) */
+#define VEC_PUSH_REQ_vec_p_TECMP_Payload(x) (__CPROVER_r_ok((x), sizeof(*(x))) && (x)->payloadData.n <= VEC_MAX && __CPROVER_r_ok((x)->payloadData.d, (x)->payloadData.n) && \
+                                             TP_FITS((x)->type.type, (x)->payloadData.d, (x)->payloadData.n) && KIND_MATCH((x)->type.type, g_mt, g_dt))
+#define VEC_ELEM_OK_vec_p_TECMP_Payload(x)  (TP_WELL(x) && KIND_MATCH((x)->type.type, g_mt, g_dt))
+
 /* ---- status tracker (C16): keys, element identity (shallow: a moved element is the same element), invariant instances */
 #define PKT_SAME(a, b) ((a).payload == (b).payload && (a).version == (b).version && (a).deviceId == (b).deviceId && (a).streamId == (b).streamId && (a).sequenceCounter == (b).sequenceCounter && \
                         (a).timestamp == (b).timestamp && (a).interfaceId == (b).interfaceId && (a).vendorId == (b).vendorId && (a).commonFlags == (b).commonFlags && (a).segmentType == (b).segmentType)
